@@ -474,15 +474,16 @@ def m_sort(env, a, args):
     if cmp is not UNDEF and not is_callable(cmp):
         raise type_error()
     c = compare_with(env, cmp)
-    vals = [v for v in a.items if v is not UNDEF]
-    und = len(a.items) - len(vals)
+    n = len(a.items)
+    vals = [v for v in a.items if v is not UNDEF]  # SortIndexedProperties reads everything first
+    und = n - len(vals)
 
     def key(x, y):
         r = c(x, y)
         return -1 if r < 0 else (1 if r > 0 else 0)
 
-    vals.sort(key=functools.cmp_to_key(key))
-    a.items[:] = vals + [UNDEF] * und
+    vals.sort(key=functools.cmp_to_key(key))  # a throwing comparator leaves a untouched
+    a.items[:n] = vals + [UNDEF] * und  # written back to the first n indices only
     return a
 
 
